@@ -1,5 +1,47 @@
-import Secp.Hand.History
-/-! # C04 — placeholder: theorems are being added in this session -/
+import Secp.Proofs.DecodeRT
+/-!
+# C04 — element encodings are canonical SEC1 and round-trip through Decode
+
+Model of the code: `Hand.ElementL.{encode,encodeUncompressed,xCoordinate}` — constant-time selects and slicing (glue,
+tied by the family `PT.enc`) — over the generated `affine` (with the generated 270-step inversion chain),
+`FromMontgomery`, `Sgn0`, `IsZero`. `affPt P` is the abstract affine point `(X/Z, Y/Z)` (or infinity).
+On the pinned tree `EncodeUncompressed(identity)` was `04‖0‖1` (defect F2, commit cedf187).
+-/
 namespace C04
-theorem model_is_total : True := trivial
+open Spec
+
+abbrev Valid (P : Pt L4) : Prop := PtValid limbLawful P
+noncomputable abbrev G (P : Pt L4) := toGp limbLawful curveOK_Fp P
+
+/-- **Encode** is the SEC1 compressed form of the abstract point: `02/03` by the parity of `y`, then the 32-byte
+big-endian `x < p`; the single byte `00` for the identity -/
+theorem encode_canonical (P : Pt L4) (hP : Valid P) : Hand.ElementL.encode P = encodeCompressed (affPt P) :=
+  encode_spec P hP.1
+
+/-- **EncodeUncompressed** is `04‖x‖y` (`00` for the identity) -/
+theorem encodeUncompressed_canonical (P : Pt L4) (hP : Valid P) :
+    Hand.ElementL.encodeUncompressed P = Spec.encodeUncompressed (affPt P) := encodeUncompressed_spec P hP.1
+
+/-- `XCoordinate` is `Encode` without its first byte -/
+theorem xCoordinate_view (P : Pt L4) : Hand.ElementL.xCoordinate P = (Hand.ElementL.encode P).drop 1 := rfl
+
+/-- **the bytes depend only on the group element**, never on the representation it was computed in -/
+theorem encode_repr_independent (P Q : Pt L4) (hP : Valid P) (hQ : Valid Q) (h : G P = G Q) :
+    Hand.ElementL.encode P = Hand.ElementL.encode Q ∧
+    Hand.ElementL.encodeUncompressed P = Hand.ElementL.encodeUncompressed Q := encode_repr_indep P Q hP hQ h
+
+/-- **round trips** for every element, every representation, any prior receiver value -/
+theorem decode_encode (e P : Pt L4) (hP : Valid P) :
+    (Hand.ElementL.decode e (Hand.ElementL.encode P)).1 = none ∧
+    Valid (Hand.ElementL.decode e (Hand.ElementL.encode P)).2 ∧
+    G (Hand.ElementL.decode e (Hand.ElementL.encode P)).2 = G P := _root_.decode_encode e P hP
+
+theorem decode_encodeUncompressed (e P : Pt L4) (hP : Valid P) :
+    (Hand.ElementL.decode e (Hand.ElementL.encodeUncompressed P)).1 = none ∧
+    Valid (Hand.ElementL.decode e (Hand.ElementL.encodeUncompressed P)).2 ∧
+    G (Hand.ElementL.decode e (Hand.ElementL.encodeUncompressed P)).2 = G P := _root_.decode_encodeUncompressed e P hP
+
+example : Valid Hand.ElementL.base := base_valid
+example : Valid (Hand.Element.identity Hand.limbOps) := identity_valid limbLawful
+
 end C04
